@@ -12,13 +12,33 @@ package main
 //     give the same bytes (a plugin that keeps an alias of a reused buffer in the event fails here).
 // A time-out event is delivered only to the first busy action (Hold / Collapse before), as the
 // repaired processor does.
+//
+// The event list of a case:
+//   0                      time-out
+//   (text size)            one input event; text = #bytes | (part ...), part = #bytes | (count #unit)
+//                          (the repeat form keeps 5 KiB keys, 64 KiB values, 10001-deep nestings small on the case line)
+//   (text size cap)        the same with the capacity of event.Buf the event arrives with: -1 = nil (a
+//                          brand-new pooled event), else make([]byte, 0, cap); default 512
+//   (1 capacity avg lag)   directive: the events of this case come from the REAL event pool
+//                          (pipeline.VerifNewEventPool(capacity, avg)): get(size), Root.DecodeBytes into the
+//                          recycled Root as pipeline.In does, back (= resetEvent: ReleaseBufMem above avg,
+//                          Buf dropped above 4096, ReleasePoolMem above 64 nodes) on Discard / Collapse
+//                          and when an event that reached the output is committed, `lag` input events later
+//   (2 ms)                 directive: the collector's coarse clock (xtime) jumps ms milliseconds ahead
+//   (3)                    directive: TWO instances of every plugin of the chain, started from ONE config
+//                          object (as the processors of one pipeline are), run the event list concurrently
+//                          on two goroutines
 
 import (
 	"bytes"
 	"encoding/json"
 	"fmt"
+	"sync"
+	"sync/atomic"
+	"time"
 
 	"github.com/ozontech/file.d/pipeline"
+	"github.com/ozontech/file.d/xtime"
 	insaneJSON "github.com/ozontech/insane-json"
 
 	"verif/harness/hx"
@@ -36,8 +56,17 @@ const (
 
 type outEvent struct {
 	ev  *pipeline.Event
-	enc []byte
-	at  int // index of the input event during which it left
+	enc []byte // nil: the parent of spawned children (never encoded)
+	at  int    // index of the input event during which it left
+}
+
+// poolRun: the state of a case whose events come from the real event pool
+type poolRun struct {
+	pool    pipeline.VerifPool
+	lag     int
+	avgSize int
+	seen    map[*pipeline.Event]bool               // pool objects already handed out once
+	kids    map[*pipeline.Event][]*insaneJSON.Root // roots of the children spawned from a pooled parent
 }
 
 type chainRun struct {
@@ -49,6 +78,7 @@ type chainRun struct {
 	cur   int
 	viol  hx.Sx // first violation
 	stats map[string]int
+	pm    *poolRun // nil: a fresh Event + Root per input event
 }
 
 type chainCtl struct {
@@ -80,7 +110,11 @@ func (c *chainCtl) Spawn(parent *pipeline.Event, nodes []*insaneJSON.Node) {
 			return
 		}
 		root := insaneJSON.Spawn()
-		r.roots = append(r.roots, root)
+		if r.pm != nil {
+			r.pm.kids[parent] = append(r.pm.kids[parent], root) // released when the parent goes back to the pool (Pipeline.finalize)
+		} else {
+			r.roots = append(r.roots, root)
+		}
 		child := &pipeline.Event{Root: root, SourceName: parent.SourceName}
 		child.Root.MutateToNode(node)
 		child.SetChildKind()
@@ -112,10 +146,58 @@ func (r *chainRun) violate(code int, detail string) {
 }
 
 func (r *chainRun) out(e *pipeline.Event) {
-	if e.Root == nil || e.IsChildParentKind() {
+	if e.Root == nil {
+		return
+	}
+	if e.IsChildParentKind() {
+		if r.pm != nil { // goes through the output like any event and is committed behind its children
+			r.outs = append(r.outs, outEvent{ev: e, at: r.cur})
+		}
 		return
 	}
 	r.outs = append(r.outs, outEvent{ev: e, enc: e.Root.Encode(nil), at: r.cur})
+}
+
+// commit: the first n events that reached the output are acknowledged. LATE observation: each is
+// encoded once more and must give the bytes it had when it left the chain. In pool mode the event then
+// goes back to the pool (Pipeline.finalize: children's roots released, eventPool.back = resetEvent).
+func (r *chainRun) commit(n int) {
+	for _, o := range r.outs[:n] {
+		if r.viol == nil && o.enc != nil {
+			var again []byte
+			if msg := hx.Catch(func() { again = o.ev.Root.Encode(nil) }); msg != "" {
+				r.violate(obsLate, fmt.Sprintf("event %d: late encoding: %s", o.at, msg))
+			} else if !bytes.Equal(again, o.enc) {
+				r.violate(obsLate, fmt.Sprintf("event %d was %s, later %s", o.at, clipStr(string(o.enc), 60), clipStr(string(again), 60)))
+			}
+		}
+		r.back(o.ev)
+	}
+	r.outs = append(r.outs[:0], r.outs[n:]...)
+}
+
+// back mirrors Pipeline.finalize(event, _, backEvent = true): time-out and child events are not pooled
+func (r *chainRun) back(e *pipeline.Event) {
+	if r.pm == nil || e.Root == nil || e.IsTimeoutKind() || e.IsChildKind() {
+		return
+	}
+	for _, root := range r.pm.kids[e] {
+		insaneJSON.Release(root)
+	}
+	delete(r.pm.kids, e)
+	r.stats["pool_back"]++
+	if e.Size > r.pm.avg() {
+		r.stats["pool_back_ReleaseBufMem"]++
+	}
+	if cap(e.Buf) > 4096 {
+		r.stats["pool_back_Buf_above_4096_dropped"]++
+	}
+	if e.Root.PoolSize() > pipeline.DefaultJSONNodePoolSize*4 {
+		r.stats["pool_back_ReleasePoolMem"]++
+	} else if e.Root.PoolSize() > pipeline.DefaultJSONNodePoolSize {
+		r.stats[fmt.Sprintf("pool_back_node_pool_kept_%d", e.Root.PoolSize())]++
+	}
+	r.pm.pool.Back(e)
 }
 
 // checkEvent: the event still is a well-formed JSON document that encodes and re-parses.
@@ -136,8 +218,13 @@ func (r *chainRun) checkEvent(e *pipeline.Event, k int, when string) bool {
 		return false
 	}
 	if !json.Valid(enc) {
-		r.violate(obsBadJSON, r.types[k]+": "+when+" event is not valid JSON: "+clipStr(string(enc), 80))
-		return false
+		// encoding/json refuses documents nested deeper than 10000 although the grammar has no such
+		// limit: for those only the re-parse below judges
+		if nestingDepth(enc) <= 9990 {
+			r.violate(obsBadJSON, r.types[k]+": "+when+" event is not valid JSON: "+clipStr(string(enc), 80))
+			return false
+		}
+		r.stats["event_deeper_than_encoding_json_accepts"]++
 	}
 	back := insaneJSON.Spawn()
 	defer insaneJSON.Release(back)
@@ -145,7 +232,8 @@ func (r *chainRun) checkEvent(e *pipeline.Event, k int, when string) bool {
 		r.violate(obsBadJSON, r.types[k]+": "+when+" event does not re-parse: "+clipStr(string(enc), 80))
 		return false
 	}
-	if normTree(hx.JSON(back.Node)) != normTree(tree) {
+	// (equal trees are equal after normalisation: the normalisation only runs when they differ)
+	if bt := hx.JSON(back.Node); hx.String(bt) != hx.String(tree) && normTree(bt) != normTree(tree) {
 		r.violate(obsBadJSON, r.types[k]+": "+when+" event re-parses to another tree: "+clipStr(string(enc), 80))
 		return false
 	}
@@ -196,6 +284,28 @@ func (r *chainRun) checkBufAlias(e *pipeline.Event, k int) bool {
 	return true
 }
 
+// nestingDepth: deepest [ / { nesting outside strings
+func nestingDepth(b []byte) int {
+	d, mx, inStr := 0, 0, false
+	for i := 0; i < len(b); i++ {
+		switch c := b[i]; {
+		case inStr && c == '\\':
+			i++
+		case c == '"':
+			inStr = !inStr
+		case inStr:
+		case c == '[' || c == '{':
+			d++
+			if d > mx {
+				mx = d
+			}
+		case c == ']' || c == '}':
+			d--
+		}
+	}
+	return mx
+}
+
 func clipStr(s string, n int) string {
 	if len(s) > n {
 		return s[:n] + "..."
@@ -207,10 +317,10 @@ func clipStr(s string, n int) string {
 func (r *chainRun) doActions(e *pipeline.Event, from int) bool {
 	for k := from; k < len(r.acts); k++ {
 		var res pipeline.ActionResult
-		fatalMsg = ""
+		setFatal("")
 		msg := hx.Catch(func() { res = r.acts[k].Do(e) })
-		if msg != "" && fatalMsg != "" {
-			r.violate(obsFatal, r.types[k]+": Fatal: "+fatalMsg)
+		if fm := getFatal(); msg != "" && fm != "" {
+			r.violate(obsFatal, r.types[k]+": Fatal: "+fm)
 			return false
 		}
 		if msg != "" {
@@ -238,9 +348,11 @@ func (r *chainRun) doActions(e *pipeline.Event, from int) bool {
 			return true
 		case pipeline.ActionDiscard:
 			r.busy[k] = false
+			r.back(e)
 			return false
 		case pipeline.ActionCollapse:
 			r.busy[k] = true
+			r.back(e)
 			return false
 		case pipeline.ActionHold:
 			r.busy[k] = true
@@ -279,13 +391,196 @@ func addK8sMeta(root *insaneJSON.Root) {
 	}
 }
 
+// directive: (kind arg ...) with an integer head; 0 = not a directive
+func directive(e hx.Sx) (int, []hx.Sx) {
+	if !hx.IsList(e) {
+		return 0, nil
+	}
+	it := hx.Items(e)
+	if len(it) == 0 || !hx.IsInt(it[0]) {
+		return 0, nil
+	}
+	return int(hx.Int(it[0])), it[1:]
+}
+
+// isInput: an input event (text size [cap])
+func isInput(e hx.Sx) bool {
+	if !hx.IsList(e) {
+		return false
+	}
+	it := hx.Items(e)
+	return len(it) >= 2 && !hx.IsInt(it[0])
+}
+
+// evText: the text of an input event; #bytes or a list of parts #bytes | (count #unit)
+func evText(e hx.Sx) []byte {
+	t := hx.Items(e)[0]
+	if hx.IsBytes(t) {
+		return hx.Bytes(t)
+	}
+	var out []byte
+	for _, p := range hx.Items(t) {
+		if hx.IsBytes(p) {
+			out = append(out, hx.Bytes(p)...)
+			continue
+		}
+		f := hx.Items(p)
+		unit := hx.Bytes(f[1])
+		for n := int(hx.Int(f[0])); n > 0; n-- {
+			out = append(out, unit...)
+		}
+	}
+	return out
+}
+
+// bigNodePool: attribution aid of main.go emit (never set while a case is recorded): every input Root
+// gets a node pool of 512 before the event is decoded, so that no event of the generators comes near the
+// end of its pool
+var bigNodePool bool
+
+var bigWarmDoc = wideObject(200, func(i int) string { return "0" })
+
+// the virtual offset of the collector's coarse clock (xtime; its own ticker re-reads the wall clock
+// once a second, which only moves a later expiry check inside a case and never the verdict)
+var clockOffset atomic.Int64
+
+func (pm *poolRun) avg() int { return pm.avgSize }
+
+// poolGet: eventPool.get never waits here. When every pooled event is out, what the collector does next
+// happens first: the output acknowledges what it has; if plugins still hold everything, the input stays
+// silent and the stream's time-out is delivered to the busy action.
+func (r *chainRun) poolGet(size int) *pipeline.Event {
+	pm := r.pm
+	full := func() bool { return pm.pool.InUse() >= int64(pm.pool.Capacity()) }
+	if full() {
+		r.commit(len(r.outs))
+	}
+	if full() && r.viol == nil {
+		r.stats["pool_empty_timeout_to_busy_action"]++
+		r.timeout()
+		r.commit(len(r.outs))
+	}
+	if full() || r.viol != nil {
+		return nil
+	}
+	e := pm.pool.Get(size)
+	if bigNodePool {
+		_ = e.Root.DecodeString(bigWarmDoc)
+	} else if !pm.seen[e] {
+		// a decoder born in a collector process has insaneJSON.StartNodePoolSize nodes; the ones this
+		// harness process recycles through insane-json's own sync.Pool have whatever earlier cases grew
+		pm.seen[e] = true
+		e.Root.ReleasePoolMem()
+	}
+	return e
+}
+
+// timeout: the stream's time-out event goes to the first busy action only
+func (r *chainRun) timeout() {
+	first := -1
+	for k, b := range r.busy {
+		if b {
+			first = k
+			break
+		}
+	}
+	if first < 0 {
+		r.stats["timeout_skipped_nobody_busy"]++
+		return
+	}
+	r.stats["timeout_delivered_"+r.types[first]]++
+	r.doActions(timeoutEvent(), first)
+}
+
+// feed runs the event list through the chain
+func (r *chainRun) feed(evs []hx.Sx, hasK8s bool) {
+	for i, evx := range evs {
+		if r.viol != nil {
+			break
+		}
+		r.cur = i
+		if hx.IsInt(evx) {
+			r.timeout()
+			continue
+		}
+		if kind, args := directive(evx); kind != 0 {
+			if kind == 2 && len(args) == 1 {
+				off := clockOffset.Add(hx.Int(args[0]) * int64(time.Millisecond))
+				xtime.SetNowTime(time.Now().UnixNano() + off)
+				r.stats["clock_advanced"]++
+			}
+			continue
+		}
+		f := hx.Items(evx)
+		text := evText(evx)
+		var e *pipeline.Event
+		if r.pm != nil {
+			if e = r.poolGet(int(hx.Int(f[1]))); e == nil {
+				r.stats["pool_empty_case_cut_short"]++
+				break
+			}
+			if err := e.Root.DecodeBytes(text); err != nil {
+				r.stats["event_not_decodable"]++
+				r.pm.pool.Back(e) // pipeline.In: "Can't process event, return to pool"
+				continue
+			}
+			e.SourceName, e.Offset = "k8s/x.log", int64(i)
+		} else {
+			root := insaneJSON.Spawn()
+			r.roots = append(r.roots, root)
+			if bigNodePool {
+				_ = root.DecodeString(bigWarmDoc)
+			} else {
+				root.ReleasePoolMem() // as born in the collector: StartNodePoolSize nodes (see poolGet)
+			}
+			if err := root.DecodeBytes(text); err != nil {
+				r.stats["event_not_decodable"]++
+				continue
+			}
+			// a pooled event keeps the capacity of its Buf from its previous life (Event.reset: Buf[:0])
+			bufCap := 512
+			if len(f) > 2 {
+				bufCap = int(hx.Int(f[2]))
+			}
+			var buf []byte
+			if bufCap >= 0 {
+				buf = make([]byte, 0, bufCap)
+			}
+			e = &pipeline.Event{Root: root, Buf: buf, Size: int(hx.Int(f[1])), SourceName: "k8s/x.log", SeqID: uint64(i + 1), Offset: int64(i)}
+		}
+		if hasK8s {
+			addK8sMeta(e.Root)
+		}
+		if r.doActions(e, 0) {
+			r.out(e)
+		}
+		if r.pm != nil && len(r.outs) > r.pm.lag {
+			r.commit(len(r.outs) - r.pm.lag)
+		}
+	}
+	r.commit(len(r.outs))
+	if r.pm != nil {
+		r.pm.pool.Stop()
+	}
+}
+
 // execChain: case = ((plugin ...) (ev ...)); plugin = (#type #cfg-json (maxEventSize cutOff cutField));
-// ev = 0 (time-out) | (#json-text size)
+// ev: see the head of this file
 func execChain(cs hx.Sx, stats map[string]int) hx.Sx {
 	it := hx.Items(cs)
-	r := &chainRun{stats: stats}
-	defer r.release()
+	evs := hx.Items(it[1])
+	var poolArgs []hx.Sx
+	nRuns := 1
+	for _, e := range evs {
+		switch kind, args := directive(e); {
+		case kind == 1 && len(args) == 3:
+			poolArgs = args
+		case kind == 3:
+			nRuns = 2
+		}
+	}
 	hasK8s := false
+	var specs []*pluginSpec
 	for k, pl := range hx.Items(it[0]) {
 		f := hx.Items(pl)
 		typ := hx.Str(f[0])
@@ -298,73 +593,73 @@ func execChain(cs hx.Sx, stats map[string]int) hx.Sx {
 				st.CutOffEventByLimitField = "cutoff"
 			}
 		}
-		p, err := newInstance(typ, hx.Bytes(f[1]), st, &chainCtl{r: r, k: k}, k)
+		sp, err := newSpec(typ, hx.Bytes(f[1]), st, k)
 		if err != "" {
 			return hx.L(hx.I(obsConfig), hx.S(typ+": "+err))
 		}
-		defer p.Stop()
-		r.acts = append(r.acts, p)
-		r.types = append(r.types, typ)
-		r.busy = append(r.busy, false)
+		specs = append(specs, sp)
 		if typ == "k8s-multiline" {
 			hasK8s = true
 		}
 	}
-	for i, evx := range hx.Items(it[1]) {
+	clockOffset.Store(0)
+	defer func() {
+		if clockOffset.Load() != 0 {
+			xtime.SetNowTime(time.Now().UnixNano())
+		}
+	}()
+	runs := make([]*chainRun, nRuns)
+	for i := range runs {
+		r := &chainRun{stats: stats}
+		if nRuns > 1 {
+			r.stats = map[string]int{}
+		}
+		defer r.release()
+		if poolArgs != nil {
+			capacity, avg := int(hx.Int(poolArgs[0])), int(hx.Int(poolArgs[1]))
+			r.pm = &poolRun{pool: pipeline.VerifNewEventPool(capacity, avg, time.Hour), avgSize: avg, lag: int(hx.Int(poolArgs[2])),
+				seen: map[*pipeline.Event]bool{}, kids: map[*pipeline.Event][]*insaneJSON.Root{}}
+		}
+		for k, sp := range specs {
+			p, err := sp.start(&chainCtl{r: r, k: k})
+			if err != "" {
+				return hx.L(hx.I(obsConfig), hx.S(sp.typ+": "+err))
+			}
+			defer p.Stop()
+			r.acts = append(r.acts, p)
+			r.types = append(r.types, sp.typ)
+			r.busy = append(r.busy, false)
+		}
+		runs[i] = r
+	}
+	if nRuns == 1 {
+		runs[0].feed(evs, hasK8s)
+	} else {
+		var wg sync.WaitGroup
+		for _, r := range runs {
+			wg.Add(1)
+			go func(r *chainRun) {
+				defer wg.Done()
+				// a panic of the harness' own code (outside hx.Catch) must not be mistaken for a pass
+				defer func() {
+					if x := recover(); x != nil {
+						r.violate(obsPanic, "twin goroutine: "+fmt.Sprint(x))
+					}
+				}()
+				r.feed(evs, hasK8s)
+			}(r)
+		}
+		wg.Wait()
+		for _, r := range runs {
+			for k, v := range r.stats {
+				stats[k] += v
+			}
+		}
+	}
+	for _, r := range runs {
 		if r.viol != nil {
-			break
+			return r.viol
 		}
-		r.cur = i
-		if hx.IsInt(evx) {
-			first := -1
-			for k, b := range r.busy {
-				if b {
-					first = k
-					break
-				}
-			}
-			if first < 0 {
-				stats["timeout_skipped_nobody_busy"]++
-				continue
-			}
-			stats["timeout_delivered_"+r.types[first]]++
-			t := &pipeline.Event{SourceName: "timeout"}
-			t.SetTimeoutKind()
-			r.doActions(t, first)
-			continue
-		}
-		f := hx.Items(evx)
-		text := hx.Bytes(f[0])
-		root := insaneJSON.Spawn()
-		r.roots = append(r.roots, root)
-		if err := root.DecodeBytes(text); err != nil {
-			stats["event_not_decodable"]++
-			continue
-		}
-		if hasK8s {
-			addK8sMeta(root)
-		}
-		// a pooled event keeps the capacity of its Buf from its previous life (Event.reset: Buf[:0])
-		e := &pipeline.Event{Root: root, Buf: make([]byte, 0, 512), Size: int(hx.Int(f[1])), SourceName: "k8s/x.log", SeqID: uint64(i + 1), Offset: int64(i)}
-		if r.doActions(e, 0) {
-			r.out(e)
-		}
-	}
-	if r.viol == nil {
-		for _, o := range r.outs {
-			var again []byte
-			if msg := hx.Catch(func() { again = o.ev.Root.Encode(nil) }); msg != "" {
-				r.violate(obsLate, fmt.Sprintf("event %d: late encoding: %s", o.at, msg))
-				break
-			}
-			if !bytes.Equal(again, o.enc) {
-				r.violate(obsLate, fmt.Sprintf("event %d was %s, later %s", o.at, clipStr(string(o.enc), 60), clipStr(string(again), 60)))
-				break
-			}
-		}
-	}
-	if r.viol != nil {
-		return r.viol
 	}
 	return hx.L(hx.I(obsOK))
 }
